@@ -15,8 +15,8 @@ variable [LinearOrder α] [Add α] [Sub α] [Mul α] [Div α] [Neg α] [OfNat α
   [FloatLike α]
 
 /-- entries a line search from `x0` along `d` may add to the log -/
-def LSCall (mode : GradMode) (x0 d lb ub : Vec α) (c : Call α) : Prop :=
-  (c.kind = .F ∨ c.kind = .G) ∧ (mode = .callable → ∃ stp, c.arg = trial x0 d lb ub stp)
+def LSCall (u : User α ε) (mode : GradMode) (x0 d lb ub : Vec α) (c : Call α) : Prop :=
+  ∃ stp, EvalAt u.toSFUser mode (trial x0 d lb ub stp) c
 
 /-- best-trial bookkeeping of the line search: the recorded best value never exceeds the
 starting value, and a recorded best step is strictly below it and is the user's objective at
@@ -33,7 +33,7 @@ structure LSSum (u : User α ε) (x0 d lb ub : Vec α) (f0 : α) (fuel : Nat) (l
   lb_eq : l'.sf.lb = l.sf.lb
   ub_eq : l'.sf.ub = l.sf.ub
   scale : l'.sf.scale = l.sf.scale
-  log : LogExt (LSCall l.sf.mode x0 d lb ub) l.sf.log l'.sf.log
+  log : LogExt (LSCall u l.sf.mode x0 d lb ub) l.sf.log l'.sf.log
   nfev_ge : l.sf.nfev ≤ l'.sf.nfev
   nfev_le : l.sf.mode = .callable → l'.sf.nfev ≤ l.sf.nfev + fuel
   ngev_ge : l.sf.ngev ≤ l'.sf.ngev
@@ -75,8 +75,8 @@ theorem lsStep_sum (u : User α ε) (o : Oracles α δ) (x0 d lb ub : Vec α) (f
       obtain ⟨sf1, f, g⟩ := e
       simp only [h1, bind, Except.bind, pure, Except.pure] at h
       obtain ⟨es, ⟨v, hv, hf⟩, -⟩ := funAndGrad_sum hc h1
-      have hlog : LogExt (LSCall l.sf.mode x0 d lb ub) l.sf.log sf1.log :=
-        es.log.mono (fun c hc' => ⟨hc'.1, fun hm => ⟨_, hc'.2 hm⟩⟩)
+      have hlog : LogExt (LSCall u l.sf.mode x0 d lb ub) l.sf.log sf1.log :=
+        es.log.mono (fun c hc' => ⟨_, hc'⟩)
       by_cases hlt : f < l.fBest
       · simp only [hlt, if_true] at h
         injection h with h
@@ -143,7 +143,7 @@ structure LineSearchSum (u : User α ε) (c : Cfg α) (x0 d : Vec α) (f0 : α) 
   lb_eq : sf'.lb = sf.lb
   ub_eq : sf'.ub = sf.ub
   scale : sf'.scale = sf.scale
-  log : LogExt (LSCall sf.mode x0 d c.lb c.ub) sf.log sf'.log
+  log : LogExt (LSCall u sf.mode x0 d c.lb c.ub) sf.log sf'.log
   nfev_ge : sf.nfev ≤ sf'.nfev
   nfev_le : sf.mode = .callable → sf'.nfev ≤ sf.nfev + maxIter
   ngev_ge : sf.ngev ≤ sf'.ngev
